@@ -256,7 +256,7 @@ def handleK (op : String) (args res : List String) : Option Verdict :=
     match args.mapM pfl, res.mapM pfl with
     | some [f, x, y, xm], some [dd, am] =>
       let E (p : Nat) : Ell (FK p) := ⟨⟨1⟩, ⟨f⟩⟩
-      -- the open numerical-range defect of DDatanhee2 (finding F93; the class is decided from the arguments): for 1 − e² < 1e-3 the scale
+      -- the open numerical-range defect of DDatanhee2 (finding F96; the class is decided from the arguments): for 1 − e² < 1e-3 the scale
       -- factor 1/(1 − e²)^m overflows before convergence (the cancellation for e² < −3, finding F85, is repaired by e5ca000 and compared again)
       let e2 := f * (2 - f); let lo := if y < x then y else x
       let q2 := Float.abs ((if f < 0 then 1 + Float.sqrt (Float.abs e2) else 2) * Float.sqrt (Float.abs e2) / (1 - e2) * (1 - lo))
